@@ -24,7 +24,9 @@ def absname(kind, s, san=False):
         tdot = True
         host = host[:-1]
     labs = host.lower().split(".") if kind in ("dns", "email", "ip") else [s]
-    lk = ["wild" if l == "*" else ("part" if "*" in l else "lit") for l in labs]
+    # "odd": a label of a host-kind name that is no DNS label (here: contains '@') - it can be compared literally, but a
+    # wildcard, which stands for one DNS label, cannot stand for it
+    lk = ["wild" if l == "*" else ("part" if "*" in l else ("odd" if (kind == "dns" and "@" in l) else "lit")) for l in labs]
     if kind == "none":
         labs, lk = [], []
     return dict(kind=kind, lab=labs, lk=lk, loc=loc, locl=loc.lower(), bad=bad, tdot=tdot, tnul=tnul)
@@ -41,6 +43,8 @@ CN_POOL = [None, "www.d.t", "*.d.t", "www.a.t", "x.b.t"]
 EXPECTED = [("dns", "www.a.t"), ("dns", "WWW.A.T"), ("dns", "x.b.t"), ("dns", "x.y.b.t"), ("dns", "b.t"), ("dns", ".b.t"), ("dns", "a.t"),
             ("dns", "wx.a.t"), ("dns", "www.c.t"), ("dns", "www.d.t"), ("dns", "x.d.t"), ("dns", "x.y.t"), ("dns", "a.x.t"), ("dns", "x.t"),
             ("dns", "www.a.t."), ("dns", "t"), ("dns", "evil.t"), ("dns", "xwww.a.t"), ("dns", "www.a.tx"),
+            # e-mail shaped names checked as host names: "u@x" is no DNS label a wildcard could stand for
+            ("dns", "u@x.b.t"), ("dns", "u@b.t"), ("dns", "u@x.d.t"),
             ("email", "u@a.t"), ("email", "U@a.t"), ("email", "u@A.T"), ("email", "u@b.t"), ("email", "v@a.t"),
             ("ip", "1.2.3.4"), ("ip", "1.2.3.44"), ("ip", "1.2.3.5"),
             ("ip", "192.168.100.200"), ("ip", "192.168.100.20"), ("ip", "192.168.100.2"), ("ip", "10.20.30.40")]
